@@ -31,13 +31,13 @@ CLAIMED = {
 CLAIMED["C11"] = dict(
     text="Lean theorems about a transcription of container/heap (up/down/Push/Pop/Remove on an array) and of quartz/queue.go: heap order and key uniqueness are invariants of every operation sequence (C11_inv_reachable), Pop/Head return a minimum, Get/Remove address the entry with that key, duplicate pushes are rejected unless Replace and then replace exactly that entry, ScheduledJobs returns exactly the entries satisfying all matchers, string operators mean prefix/suffix/infix/equality. Tie: exact differential execution incl. heap array order against quartz.NewJobQueue() (random and exhaustive-small op sequences) plus an abstract key->entry map oracle in the harness.",
     note="container/heap is modelled (transcribed) and compared, not verified; thread-safety of the queue's own mutex is outside the model",
-    technique="Lean 4 invariant + refinement proofs over all op sequences + exact differential correspondence",
+    technique="Lean 4 invariant + refinement proofs over all op sequences + exact differential correspondence + concurrent-history linearizability search",
     ref="DESIGN.md §6 C11")
 
 CLAIMED["C14"] = dict(
     text="Lean theorems about the NextFireTime loop with the location abstracted to arbitrary functions (offset in force at an instant; the instant time.Date names for a reading): soundness, no matching local reading passed over unless none of the code's candidate instants shows it after prev (gap / earlier pass of an overlap), expiry only when that holds for every matching reading ahead, termination, exactness when the offset does not change between prev and the candidate, strictly advancing chains — with NO assumption on how time.Date resolves gaps and overlaps. Tie: differential execution in IANA zones (transitions read with ZoneBounds, time.Date's two-lookup resolution transcribed and compared) around transitions, judged by a per-second wall-clock oracle that permits only the documented latitude.",
     note="tzdata and time.Date's choice of occurrence are trusted/observed; the theorems do not depend on them",
-    technique="Lean 4 proof over an abstract zone (loop invariant + measure) + differential correspondence in IANA zones",
+    technique="Lean 4 proof over an abstract zone (loop invariant + measure; proved negation of the full-strength expiry clause = known finding) + differential correspondence in IANA zones",
     ref="DESIGN.md §6 C14")
 CLAIMED["C09"] = dict(
     text="Lean theorems: (concurrent part) threads whose multi-step bodies run under one mutex are linearizable in lock-acquisition order under every schedule (Lock.linearizable), instantiated with the registry calls and the dispatch step; its premise is a regenerated fact (every StdScheduler method makes all queue calls after queueLocker.Lock(); defer Unlock(); the only unlocked queue calls are the loop's read-only Size/Head). (sequential part) error => registry unchanged, sentinel iff precondition, unique keys in every reachable state (Theorems/C09.lean, when present in the evidence). Tie: exact differential of every API call against the real scheduler (gated queue), an independent precondition oracle in the harness, and a linearizability search over recorded concurrent histories with default and copying queues.",
@@ -53,7 +53,7 @@ CLAIMED["C03"] = dict(
 CLAIMED["C04"] = dict(
     text="Lean theorems: every popped active fire time is exactly one of executed (next computed from the scheduled time), misfired (iff now - f > threshold; offered; re-based on now) or not due (re-pushed unchanged) with registry accounting as multisets (C04_accounted, C04_misfire_iff_late); trigger reports no further fire time => job leaves the registry, still dispatched if it was on time (C04_leaves_registry); no drift for interval triggers regardless of the actual clock readings (C04_no_drift); a run-once job is dispatched exactly once and then absent (C04_run_once), hypotheses shown reachable. Tie as C03; the harness additionally checks that the trigger received the scheduled time (valid) or the current time (outdated, ScheduleJob, ResumeJob) by bracketing the call with clock readings.",
     note="as C03",
-    technique="Lean 4 case-exhaustive step theorem + history invariants + regenerated facts + step-by-step differential",
+    technique="Lean 4 case-exhaustive step theorem + history invariants (int64 saturation of interval triggers modelled) + regenerated facts + step-by-step differential",
     ref="DESIGN.md §6 C03/C04/C08")
 CLAIMED["C08"] = dict(
     text="Lean theorems: a successful pause keeps the entry listed, suspended, parked at MaxInt64 with the same trigger state (C08_pause_effect); for every continuation not touching the key no trigger call, dispatch or misfire of that job occurs and it stays listed as paused (C08_paused_no_consumption[_reachable]); after delete/clear the job is never popped again (C08_delete_effect, C08_clear_effect); resume re-activates with the trigger's answer to the clock reading of the resumption (C08_resume_from_now). Tie as C03 plus concurrent pause/resume/delete storms judged against the return times of the API calls.",
@@ -64,7 +64,7 @@ CLAIMED["C08"] = dict(
 CLAIMED["C10"] = dict(
     text="Lean theorems about an interleaving model of Start/Stop/context cancellation/watcher/loop/workers/job goroutines with run generations, for ALL interleavings: Start and Stop idempotent; IsStarted equals the fold of the user calls in call order (C10_isStarted_latest, unconditional after repair ec88e72); cancel of the current run's context and Stop are indistinguishable through IsStarted under every continuation (C10_cancel_eq_stop); after stop;start or cancel;start no stale watcher clears the new run (C10_restart) with proved negative controls for the unguarded watcher and for Start without the pre-stop (the two repaired defects); the WaitGroup counter equals the number of live counted goroutines, so Wait returning means all are gone (C10_wait_sound). Tie: regenerated facts (every go statement is wg-counted except Wait's helper; shapes of Start/stopRun/stop/IsStarted/Wait; ctx passed down to Job.Execute) + scripted and random call sequences on real schedulers in three modes compared with the model's expected flag, restart x300, cancel-restart x200, goroutine dump after Wait.",
     note="Go channel / RWMutex / context / WaitGroup semantics trusted; goroutine exit latency and the goroutine dump are observed with grace periods",
-    technique="Lean 4 inductive invariants over all interleavings + regenerated structural facts + scenario harness",
+    technique="Lean 4 inductive invariants over all interleavings + lock-hierarchy deadlock-freedom theorem instantiated with regenerated per-method lock programs + regenerated structural facts + scenario harness",
     ref="DESIGN.md §6 C10")
 CLAIMED["C12"] = dict(
     text="Lean theorems about an interleaving model of the three-way dispatch (inline / rendezvous hand-off to a fixed pool over the unbuffered channel / one goroutine per execution) for ALL reachable states: in-flight <= 1 in blocking mode, = busy workers <= n with WorkerLimit n, n in flight reachable for every n, the loop never waits on a job in unbounded mode (enabledness independent of the in-flight count), a full pool is the only thing that blocks the loop, BlockingExecution ignores WorkerLimit; negative controls (buffered channel, swapped switch order). Tie: regenerated facts (dispatch capacity 0, switch case order and arms, startWorkers guard, worker loop bound and body) + instrumented jobs with in-flight counters and barriers on real schedulers.",
